@@ -2,6 +2,8 @@ package mon
 
 import (
 	"fmt"
+	"io"
+	"log"
 	"os"
 	"reflect"
 	"sort"
@@ -168,6 +170,11 @@ func init() {
 
 func c11Build(r *core.Rng, fresh ...int) *c11Target {
 	t := &c11Target{tree: c11Gen.Gen(r)}
+	if len(fresh) > 1 && fresh[1] > 0 {
+		// a structure far deeper than the random generator produces: whatever a query keeps per nesting level (and
+		// wherever it keeps it) is multiplied by the number of goroutines at work
+		t.tree.Kids = append(t.tree.Kids, c11DeepChain(r, fresh[1]))
+	}
 	if len(fresh) > 0 {
 		// many never-seen element types directly in the root and in the first nested stack
 		for i := 0; i < fresh[0]; i++ {
@@ -252,6 +259,24 @@ func c11Args(cs CallSpec, twin any) []reflect.Value {
 func c11Sequential(c *core.Ctx) {
 	r := c.Rng
 	t := c11Build(r)
+	if r.Chance(1, 5) {
+		// the package defaults change AFTER the structure was built (a default logger is activated or silenced, the
+		// default level changes): existing instances are not the defaults' business, least of all on a read path
+		if procLogging {
+			stackage.SetDefaultStackLogger("none")
+			stackage.SetDefaultConditionLogger("none")
+			stackage.SetDefaultStackLogLevel(stackage.NoLogLevels)
+			stackage.SetDefaultConditionLogLevel(stackage.NoLogLevels)
+		} else {
+			w := log.New(io.Discard, "later", 0)
+			stackage.SetDefaultStackLogger(w)
+			stackage.SetDefaultConditionLogger(w)
+			stackage.SetDefaultStackLogLevel(stackage.AllLogLevels)
+			stackage.SetDefaultConditionLogLevel(stackage.AllLogLevels)
+		}
+		defer RestoreProcDefaults()
+		c.Count("trees.sequential.defaults-changed-after-build")
+	}
 	s0, _ := Take(t.root)
 	desc := func(call string) map[string]any { return map[string]any{"tree": t.tree, "call": call} }
 	// the documented mode for queries is lock-free: a query that acquires a stack lock writes lock bookkeeping on a
@@ -342,9 +367,28 @@ func c11Sequential(c *core.Ctx) {
 	}
 }
 
+// c11DeepChain: a chain of `depth` nested levels (every third one through a Condition) with a leaf at every level.
+func c11DeepChain(r *core.Rng, depth int) *TNode {
+	var cur *TNode = &TNode{T: "leaf", Leaf: &LeafDesc{Tag: "str", S: "bottom"}}
+	for d := depth; d > 0; d-- {
+		st := &TNode{T: "stack", Kind: []string{"AND", "OR", "NOT", "LIST"}[r.Intn(4)], Paren: r.Bool(),
+			Kids: []*TNode{{T: "leaf", Leaf: &LeafDesc{Tag: "str", S: fmt.Sprintf("level%d", d)}}, cur}}
+		if d%3 == 0 {
+			cur = &TNode{T: "cond", Kw: fmt.Sprintf("kw%d", d), Op: &OpDesc{Code: 1 + r.Intn(6)}, Expr: st}
+		} else {
+			cur = st
+		}
+	}
+	return cur
+}
+
 func c11Concurrent(c *core.Ctx) {
 	r := c.Rng
-	t := c11Build(r, 16)
+	deep := 0
+	if c.Idx%3 != 1 {
+		deep = r.Range(8, 26)
+	}
+	t := c11Build(r, 16, deep)
 	s0, _ := Take(t.root)
 	type q struct {
 		recv reflect.Value
@@ -427,6 +471,42 @@ func c11Concurrent(c *core.Ctx) {
 	wg.Wait()
 	c.Add("queries.concurrent", int64(workers*rounds*len(qs)/4))
 	c.Count("trees.concurrent")
+	if deep > 0 && len(bad) == 0 {
+		// a storm of the recursive queries on the root: every goroutine is inside the same deep recursion at once
+		c.Count("trees.concurrent.deep-chain")
+		wantStr, wantValid := t.root.String(), t.root.Valid() == nil
+		wantU, _ := t.root.Unmarshal()
+		wantShape := fmt.Sprintf("%v", shapeOf(wantU))
+		var swg sync.WaitGroup
+		go2 := make(chan struct{})
+		for w := 0; w < workers; w++ {
+			swg.Add(1)
+			go func() {
+				defer swg.Done()
+				<-go2
+				for n := 0; n < 25; n++ {
+					var gs string
+					var gv bool
+					var gu []any
+					if p, msg, _ := Guard(func() { gs, gv = t.root.String(), t.root.Valid() == nil; gu, _ = t.root.Unmarshal() }); p {
+						mu.Lock()
+						bad = append(bad, "deep recursive query panicked: "+msg)
+						mu.Unlock()
+						return
+					}
+					if gs != wantStr || gv != wantValid || fmt.Sprintf("%v", shapeOf(gu)) != wantShape {
+						mu.Lock()
+						bad = append(bad, fmt.Sprintf("on a %d-level chain, %d goroutines: String()=%q (isolated %q), Valid ok=%v (isolated %v), Unmarshal shape equal=%v", deep, workers, gs, wantStr, gv, wantValid, fmt.Sprintf("%v", shapeOf(gu)) == wantShape))
+						mu.Unlock()
+						return
+					}
+				}
+			}()
+		}
+		close(go2)
+		swg.Wait()
+		c.Add("queries.concurrent", int64(workers*75))
+	}
 	if cold {
 		c.Count("trees.concurrent.cold-start")
 		iso := map[string][]any{}
@@ -565,4 +645,19 @@ func init() {
 			return map[string]int64{"queries.Stack": 50000, "queries.Condition": 5000, "trees.concurrent": 30, "queries.concurrent": 50000}
 		},
 	})
+}
+
+// shapeOf reduces an Unmarshal result to nesting structure and leaf counts (values themselves may be live instances).
+func shapeOf(v any) any {
+	if sl, ok := v.([]any); ok {
+		out := make([]any, len(sl))
+		for i := range sl {
+			out[i] = shapeOf(sl[i])
+		}
+		return out
+	}
+	if s, ok := v.(string); ok {
+		return s
+	}
+	return fmt.Sprintf("%T", v)
 }
